@@ -2,6 +2,7 @@ package main
 
 import (
 	"fmt"
+	"go.pennock.tech/tabular"
 	"html"
 	"html/template"
 	"strings"
@@ -321,12 +322,23 @@ func c06Lifecycle(x *X, c *Chooser, depth int) {
 	renders := 0
 	var ops []string
 	for step := 0; step < depth; step++ {
-		k := c.Choose(14)
+		k := c.Choose(15)
 		if k == 0 {
 			break
 		}
 		x.Transition(1)
 		switch k {
+		case 14:
+			// a body cell replaced in place (same row, same number of cells)
+			nt := fmt.Sprintf("repl<%d>&", step)
+			c.Logf("*ht.CellAt(1,1) = tabular.NewCell(%q)", nt)
+			cp, err := t.CellAt(tabular.CellLocation{Row: 1, Column: 1})
+			if err != nil {
+				panic("harness: CellAt(1,1): " + err.Error())
+			}
+			*cp = tabular.NewCell(nt)
+			g.Rows[0].Cells[0] = nt
+			ops = append(ops, "replace-cell")
 		case 13:
 			// a generator that, on its first call of a render, renders ANOTHER html wrapper (different table, own generator)
 			c.Logf("ht.SetRowClassGenerator(genN)   // genN renders a second html wrapper while ht is being rendered")
@@ -446,7 +458,7 @@ func c06Lifecycle(x *X, c *Chooser, depth int) {
 }
 
 func runC06(x *X) {
-	x.Explore("wrapper-lifecycle", ExploreOpts{ShardDepth: 2, Bound: fmt.Sprintf("all sequences of <=%d operations {set generator A, set generator B, set caption, set id+class, add row, add separator, Render, RenderTo a writer failing at / half-way through its first Write, Render with a generator that panics, AddHeaders(1 cell), AddHeaders(3 cells), a generator that renders another html wrapper from inside the render} on one long-lived wrapper", x.Pick(5, 6))}, func(c *Chooser) {
+	x.Explore("wrapper-lifecycle", ExploreOpts{ShardDepth: 2, Bound: fmt.Sprintf("all sequences of <=%d operations {set generator A, set generator B, set caption, set id+class, add row, add separator, Render, RenderTo a writer failing at / half-way through its first Write, Render with a generator that panics, AddHeaders(1 cell), AddHeaders(3 cells), a generator that renders another html wrapper from inside the render, a body cell replaced in place} on one long-lived wrapper", x.Pick(5, 6))}, func(c *Chooser) {
 		c06Lifecycle(x, c, x.Pick(5, 6))
 	})
 	var texts []string
